@@ -1,6 +1,7 @@
 import RpgpModel.Proto
 import RpgpModel.Stream
 import RpgpModel.StreamFail
+import RpgpModel.PacketIter
 import RpgpModel.Utf8
 import RpgpModel.Canon
 import RpgpModel.Gen.Constants
@@ -36,6 +37,30 @@ def handle (op : String) (a : Args) : Option String :=
     let rs := encPoll b (b + 2) (fun x => x ++ List.replicate grow 0) (List.replicate tr 0)
       ⟨List.replicate q 0, false, false⟩ src reqs
     pure ("ok:" ++ ",".intercalate (rs.map fun r => match r with | .fail => "E" | .bytes bs => toString bs.length))
+  | "next_hdr" => do
+    -- the reader below delivers `pre`, then ends (`tail=0`) or fails (`tail=1`: kind UnexpectedEof,
+    -- `tail=2`: another kind); `it=1`: the Iterator, `it=0`: next_ref
+    let pre ← a.bytes "pre"
+    let t ← a.nat "tail"
+    let it ← a.nat "it"
+    let tail : PacketIter.Tail := if t = 0 then .ended else .failed (t == 1)
+    let r := if it = 1 then PacketIter.nextIter pre tail else PacketIter.nextRef pre tail
+    -- (`item=err`: the implementation's iterator item was an error; that is the header stage failing
+    --  or a header that was read and a body that could not be)
+    if (a.get? "item").isSome then
+      pure (match r with
+        | .done => "ok:done"
+        | _ => "ok:err-or-hdr")
+    else
+    pure (match r with
+      | .done => "ok:done"
+      | .err => "ok:err"
+      | .hdr h _ =>
+        let kind := match h.len with
+          | .fixed n => s!"f{n}"
+          | .part n => s!"p{n}"
+          | .indet => "i"
+        s!"ok:hdr:{if h.newFormat then 1 else 0}.{h.tag}.{kind}")
   | _ => none
 
 end Rpgp.Ops.C09
